@@ -1,3 +1,57 @@
-From Ebml Require Import Base Tools Spec Writer.
-Example C19_ex : size_to_vint 127 0 = Some [64; 127].
-Proof. vm_compute. reflexivity. Qed.
+(* C19 — a rejected write leaves no trace in the output.  Statements only. *)
+From Ebml Require Import Base Tools Spec Writer Proofs.Tactics Proofs.SpecProofs Proofs.WriterProofs.
+
+(* write()/write_advanced()/write_unknown_size(): if the call returns an error other than an I/O error, the whole writer
+   state (open masters, working buffer, delivered bytes, destination) is exactly what it was before the call — for every
+   specification, tag tree (any nesting of Full), options and prior state *)
+Theorem C19_atomic : forall sp st t o st' e,
+  write_advanced sp st t o = (st', WErr e) -> (forall x, e <> EIo x) -> st' = st.
+Proof. exact write_advanced_atomic. Qed.
+
+Theorem C19_atomic_step : forall sp st t o st' e,
+  wstep sp st (OpWrite t o) = (st', WErr e) -> (forall x, e <> EIo x) -> st' = st.
+Proof. exact write_advanced_atomic. Qed.
+
+Theorem C19_atomic_deprecated : forall sp st t st' e,
+  wstep sp st (OpWriteUnknown t) = (st', WErr e) -> (forall x, e <> EIo x) -> st' = st.
+Proof. intros sp st t. exact (write_advanced_atomic sp st t _). Qed.
+
+(* write_raw() has no non-I/O failure at all (payloads of 2^56-1 bytes cannot exist) *)
+Theorem C19_raw : forall st id data st' e,
+  N.of_nat (length data) < 2 ^ 56 - 1 -> wstep [] st (OpRaw id data) = (st', WErr e) -> exists x, e = EIo x.
+Proof. exact write_raw_no_reject. Qed.
+
+(* consequently the rest of the run — results, byte counts and final output — is what it would have been without the call *)
+Theorem C19_erase : forall sp st op ops e, wstep sp st op = (st, WErr e) ->
+  wrun sp st (op :: ops) = (fst (wrun sp st ops), (WErr e, length (w_dest st)) :: snd (wrun sp st ops)).
+Proof. exact wrun_skip. Qed.
+
+(* the invariant behind it: buffering a tag only appends to the working buffer, only pushes masters above the ones that were
+   open, and back-patches sizes only inside the appended part *)
+Theorem C19_buffering_extends : forall sp t o st0 st st1 r, Ext st0 st -> buffer_tag sp t o st = (st1, r) ->
+  ((length (w_open st0) < length (w_open st))%nat \/ r <> WOk \/ is_end t = false) ->
+  Ext st0 st1 /\ (r = WOk -> is_end t = false -> (length (w_open st) <= length (w_open st1))%nat).
+Proof. exact buffer_ext. Qed.
+
+(* non-vacuity: each rejection kind on a concrete state with an open known-size master and buffered bytes;
+   81 = Root (master), 4103 = Parent (master, under Root), 4101 = Int (unsigned, under Root), 4102 = binary under Root/Parent *)
+Definition ex_sp : spec :=
+  [ {| e_id := 129; e_ty := DMaster; e_path := [] |}; {| e_id := 16643; e_ty := DMaster; e_path := [PId 129] |};
+    {| e_id := 16641; e_ty := DUInt; e_path := [PId 129] |}; {| e_id := 16642; e_ty := DBinary; e_path := [PId 129; PId 16643] |} ].
+Definition ex_st : wst := fst (wrun ex_sp (w_init []) [OpWrite (TStart 129) o_default; OpWrite (TElem 16641 (VU 5)) o_default]).
+
+Example C19_ex_rejections :
+  w_buf ex_st = [65; 1; 129; 5] /\
+  (* tag not allowed here *)
+  wstep ex_sp ex_st (OpWrite (TElem 16642 (VB [1])) o_default) = (ex_st, WErr (EUnexpectedTag 16642 [129])) /\
+  (* unknown size on a non-master *)
+  wstep ex_sp ex_st (OpWriteUnknown (TElem 16641 (VU 1))) = (ex_st, WErr ESize) /\
+  (* malformed raw id *)
+  wstep ex_sp ex_st (OpWrite (TElem 1 (VRaw [7])) o_default) = (ex_st, WErr (ETagId 1)) /\
+  (* closing a master that is not the innermost open one *)
+  wstep ex_sp ex_st (OpWrite (TEnd 16643) o_default) = (ex_st, WErr (EClose 16643 (Some 129))) /\
+  (* Full master with an invalid child after a valid one *)
+  wstep ex_sp ex_st (OpWrite (TFull 16643 [TElem 16642 (VB [1]); TElem 16641 (VU 1)]) o_default) = (ex_st, WErr (EUnexpectedTag 16641 [129; 16643])) /\
+  (* size not representable in the requested width: 130 bytes with a 1-byte size field *)
+  snd (wstep ex_sp (fst (wstep ex_sp ex_st (OpWrite (TStart 16643) o_default))) (OpWrite (TElem 16642 (VB (repeat 0 130))) {| o_len := Some 1%nat; o_unknown := false |})) = WErr ESize.
+Proof. vm_compute. repeat split; reflexivity. Qed.
